@@ -6,6 +6,7 @@ import (
 	"fmt"
 	"io"
 	"regexp"
+	"sort"
 	"strings"
 
 	yaml "gopkg.in/yaml.v3"
@@ -390,6 +391,10 @@ func (C10) Judge(c *Ctx, sc *Scenario) []Violation {
 			// XML scalars are printed without a newline: where a comment lands also decides where lines break
 			diff = "comments-only"
 		}
+		// (whether a comment only moved or was also lost/duplicated is not told apart: which comments an encoder
+		// prints for a document depends on the document's position in many ways - leading content vs head comment
+		// of the first key vs foot comment of the previous document - so no strict rule could be held; a duplicated
+		// or lost comment that does NOT depend on position is caught by C18 O18.2, where the reference is exact)
 		add(oracle, "diff="+diff, firstDiffClass(),
 			fmt.Sprintf("combined output is not the join of the per-document outputs:\n--- combined ---\n%s\n--- expected ---\n%s", clip(combined.Stdout, 600), clip(expected, 600)))
 	}
@@ -702,4 +707,24 @@ func hasFullSchema(piece string) bool {
 		}
 	}
 	return true
+}
+
+var anyCommentRe = regexp.MustCompile(`(?s)<!--(.*?)-->|(?m)#[^\n]*$`)
+
+// commentBag: the sorted multiset of comment texts of an output (YAML/props `# ...`, XML `<!-- ... -->`).
+func commentBag(b []byte) string {
+	var texts []string
+	for _, m := range anyCommentRe.FindAll(b, -1) {
+		t := strings.TrimSpace(strings.Trim(strings.TrimPrefix(strings.TrimSuffix(string(m), "-->"), "<!--"), "# \t"))
+		t = strings.ReplaceAll(t, "$yqDocSeparator$", "")
+		// word level: encoders join or split comments (`# a b` vs `# a` + `# b`), which is placement, not loss
+		for _, w := range strings.Fields(t) {
+			w = strings.Trim(w, "#")
+			if w != "" {
+				texts = append(texts, w)
+			}
+		}
+	}
+	sort.Strings(texts)
+	return strings.Join(texts, "\x00")
 }
